@@ -138,7 +138,7 @@ prop(
     rule=("scenario = (control sequence, send pattern, child behaviours, fault plan, ending); evaluations = scenarios executed; "
           "non-trivial = the trace contains >=1 spawn and >=1 of {kill, signal, spawn failure}; distinct by the abstract trace "
           "(event kinds in order, times and ids erased)"),
-    tiers={"quick": {"shards": NC, "budget": 25, "min_evaluations": 50000}, "thorough": {"shards": NC, "budget": 420}},
+    tiers={"quick": {"shards": NC, "budget": 70, "quota": 8000, "min_evaluations": 20000}, "thorough": {"shards": NC, "budget": 420}},
 )
 
 _MODEL = ("trace inclusion: the observed job-side event sequence (hook calls, spawns, signals, kills, reaps, error-handler calls, marker "
@@ -160,7 +160,7 @@ prop(
     level_note=_SIM_NOTE,
     technique="online reference-model monitor (trace inclusion) in exact virtual time",
     rule=("evaluations = scenarios; non-trivial = trace with >=1 spawn and >=1 of {kill, signal, spawn failure}; distinct by abstract trace"),
-    tiers={"quick": {"shards": NC, "budget": 25, "min_evaluations": 20000}, "thorough": {"shards": NC, "budget": 420}},
+    tiers={"quick": {"shards": NC, "budget": 70, "quota": 8000, "min_evaluations": 20000}, "thorough": {"shards": NC, "budget": 420}},
 )
 
 prop(
@@ -178,7 +178,7 @@ prop(
     level_note=_SIM_NOTE,
     technique="offline checker over recorded ticket-completion events against a reference model, with fault injection at the child interface",
     rule=("evaluations = scenarios; non-trivial = trace with >=1 spawn and >=1 of {kill, signal, spawn failure}; distinct by abstract trace"),
-    tiers={"quick": {"shards": NC, "budget": 25, "min_evaluations": 20000}, "thorough": {"shards": NC, "budget": 420}},
+    tiers={"quick": {"shards": NC, "budget": 70, "quota": 8000, "min_evaluations": 20000}, "thorough": {"shards": NC, "budget": 420}},
 )
 
 prop(
@@ -194,7 +194,7 @@ prop(
     level_note=_SIM_NOTE,
     technique="online reference-model monitor (trace inclusion against an executable model of the documented API) in virtual time",
     rule=("evaluations = scenarios; non-trivial = trace with >=1 spawn and >=1 of {kill, signal, spawn failure}; distinct by abstract trace"),
-    tiers={"quick": {"shards": NC, "budget": 25, "min_evaluations": 20000}, "thorough": {"shards": NC, "budget": 420}},
+    tiers={"quick": {"shards": NC, "budget": 70, "quota": 8000, "min_evaluations": 20000}, "thorough": {"shards": NC, "budget": 420}},
 )
 
 prop(
@@ -210,7 +210,7 @@ prop(
     level_note=_SIM_NOTE,
     technique="offline ordering checker over uniquely identified marker events + reference-model trace inclusion (virtual time)",
     rule=("evaluations = scenarios; non-trivial = trace with >=1 spawn and >=1 of {kill, signal, spawn failure}; distinct by abstract trace"),
-    tiers={"quick": {"shards": NC, "budget": 25, "min_evaluations": 20000}, "thorough": {"shards": NC, "budget": 420}},
+    tiers={"quick": {"shards": NC, "budget": 70, "quota": 8000, "min_evaluations": 20000}, "thorough": {"shards": NC, "budget": 420}},
 )
 
 prop(
